@@ -170,11 +170,6 @@ def execute(cases, hbin, layers=("impl", "spec"), shards=12, timeout=600):
     shards = max(1, min(shards, n // 20 + 1))
     bounds = [(n * i // shards, n * (i + 1) // shards) for i in range(shards)]
     texts = ["".join(c.text() for c in cases[a:b]).encode() for a, b in bounds]
-    jobs = []
-    for si, t in enumerate(texts):
-        jobs.append(("H", si, [hbin], t))
-        for ly in layers:
-            jobs.append((ly, si, [DRIVER, ly], t))
     res = {}
 
     def work(j):
@@ -185,14 +180,32 @@ def execute(cases, hbin, layers=("impl", "spec"), shards=12, timeout=600):
             rc, out, err = -9, "", "timeout"
         return name, si, rc, out, err
 
-    with ThreadPoolExecutor(max_workers=16) as ex:
-        for name, si, rc, out, err in ex.map(work, jobs):
-            a, b = bounds[si]
-            obs = split_obs(out, b - a)
-            res.setdefault(name, [None] * n)
-            res[name][a:b] = obs[: b - a]
-            if rc != 0:
-                res.setdefault("_errors", []).append((name, si, rc, err[-400:]))
+    def collect(jobs):
+        with ThreadPoolExecutor(max_workers=16) as ex:
+            for name, si, rc, out, err in ex.map(work, jobs):
+                a, b = bounds[si]
+                obs = split_obs(out, b - a)
+                res.setdefault(name, [None] * n)
+                res[name][a:b] = obs[: b - a]
+                if rc != 0:
+                    res.setdefault("_errors", []).append((name, si, rc, err[-400:]))
+
+    collect([("H", si, [hbin], t) for si, t in enumerate(texts)])
+    if layers:
+        # the definition leaves open whether a seek beyond the keystream end succeeds: tell the model
+        # drivers what the implementation answered (used by the spec layer for its position only)
+        texts2 = []
+        for a, b in bounds:
+            parts = []
+            for c in cases[a:b]:
+                h = res["H"][c.cid]
+                if h is not None and any(o.startswith("seek ") for o in c.ops):
+                    ops = [o + (" hint=ok" if o.startswith("seek ") and i < len(h) and h[i] == "ok" else "") for i, o in enumerate(c.ops)]
+                    parts.append("\n".join([c.header(c.cid)] + ops + ["end"]) + "\n")
+                else:
+                    parts.append(c.text())
+            texts2.append("".join(parts).encode())
+        collect([(ly, si, [DRIVER, ly], t) for si, t in enumerate(texts2) for ly in layers])
     return res
 
 
